@@ -111,8 +111,18 @@ func (b *balancer) next() (int, error) {
 	if len(b.roundRobinQ) == 1 {
 		return b.roundRobinQ[0], nil
 	}
-	// 无锁原子自增（自动处理溢出）
-	newIndex := atomic.AddUint32(&b.nextIndex, 1)
-	idx := int64(newIndex) % int64(len(b.roundRobinQ))
-	return b.roundRobinQ[idx], nil
+	// 无锁原子自增：下标始终保持在 [0, len) 内。
+	// 直接对 uint32 计数器取模时，若队列长度不能整除 2^32，计数器回绕的那一刻轮询序列会跳变
+	// （权重窗口被破坏，连续 len 次调用也不再覆盖所有节点）。
+	n := uint32(len(b.roundRobinQ))
+	for {
+		old := atomic.LoadUint32(&b.nextIndex)
+		idx := old + 1
+		if idx >= n {
+			idx = 0
+		}
+		if atomic.CompareAndSwapUint32(&b.nextIndex, old, idx) {
+			return b.roundRobinQ[idx], nil
+		}
+	}
 }
